@@ -1,4 +1,21 @@
-"""Properties not (yet) claimed, each with the reason that goes into MANIFEST.not_applicable."""
-_NYB = ('not claimed in this build: the functions this property depends on are not yet under '
-        'machine-checked contract (planned, DESIGN.md section 8); no other technique is substituted')
-REASONS = dict(('C%02d' % i, _NYB) for i in range(1, 21) if i not in (1, 2, 3, 4, 5, 6, 7, 8, 9, 10, 11, 13, 14, 15, 17, 18, 19, 20))
+"""Properties not claimed, each with the reason that goes into MANIFEST.not_applicable (see DESIGN.md 13.6)."""
+REASONS = {
+    'C12': (
+        'not applicable with the contracts within reach: the property is carried by Arbiter.reload_from_config (130 lines: '
+        'set algebra over name sets, three nested loops over sockets and watchers, DictDiffer, parse_env_dict, substring tests '
+        'on command lines, five awaited coroutines) diffing against config.get_config (C16, itself out of reach), and its '
+        'statement is about SEQUENCES of reloads (convergence = an inductive snapshot invariant over Watcher._cfg across '
+        'histories). The pyvc subset has no Python-set theory with iteration, and the string theory of z3/cvc5 does not '
+        'decide the env / substring clauses within budget; no smaller set of functions carries the property, and a '
+        'hand-written model of the reload algorithm would be a different technique. Defects seen natively while reading '
+        '(stale _cfg after a numprocesses-only change; DictDiffer.changed ignoring added/removed keys) are described in '
+        'DESIGN.md 13.4 as candidates only, since no check decides them.'),
+    'C16': (
+        'not applicable with the contracts within reach: the property is carried by config.get_config (190 lines over '
+        'ConfigParser sections: option typing chain, env / env:PATTERN layering with fnmatch, recursive expansion through '
+        'replace_gnu_args regex substitution, nested closures, list.sort(key=itemgetter)) and StrictConfigParser._read (line '
+        'grammar). Its clauses are string-to-string (pattern matching, case-insensitive variable expansion, comma lists), '
+        'which the seq/string theories of z3 and cvc5 leave undecided within budget (replace_all chains, regex callbacks), '
+        'and the layering clause needs a fold invariant over three nested loops of dict updates. Verifying only the small '
+        'helpers (to_bool, rlimit_value, dget) would not carry any clause of the statement, so nothing is claimed.'),
+}
